@@ -34,6 +34,7 @@ Inductive prog :=
 | PBreak
 | PReturn                                    (* return STOP_RENDERING *)
 | PFor (n : nat) (body : list prog)          (* % for over n items *)
+| PForRaise (body : list prog)               (* % for whose iterable expression raises *)
 | PTry (body handler : list prog).           (* % try / % except *)
 
 Inductive outcome := ONormal | ORaised | OBreak | OReturn | OFuel.
@@ -48,6 +49,7 @@ Fixpoint reads_loop (fuel : nat) (p : prog) : bool :=
       match p with
       | PObserve => true
       | PFor _ body => existsb (reads_loop f) body
+      | PForRaise body => existsb (reads_loop f) body
       | PTry b h => existsb (reads_loop f) b || existsb (reads_loop f) h
       | _ => false
       end
@@ -103,6 +105,7 @@ Fixpoint exec (fuel : nat) (p : prog) (s : lstack) : result :=
             let '(s1, o1, t1) := iterate (exec f) body n (enter (N.of_nat n) s) true in
             (exit_ s1, o1, t1)
           else iterate (exec f) body n s false
+      | PForRaise _ => (s, ORaised, [])          (* the iterable is evaluated before _enter and outside the try *)
       | PTry b h =>
           let '(s1, o1, t1) := run_list (exec f) b s in
           match o1 with
